@@ -187,11 +187,11 @@ func (e *SpecEnv) exprLoc(x ast.Expr) Val {
 			}
 			return Val{T: fmt.Sprintf("(mk-slice (sl.base %s) (+ (sl.off %s) %s) (- %s %s))", s.T, s.T, lo, hi, lo), Typ: s.Typ}
 		case *types.Basic:
-			hi = "(str.len " + s.T + ")"
+			hi = "(gs.len " + s.T + ")"
 			if n.High != nil {
 				hi = e.expr(n.High).T
 			}
-			return Val{T: app("str.sub", s.T, lo, hi), Typ: s.Typ}
+			return Val{T: app("gs.sub", s.T, lo, hi), Typ: s.Typ}
 		}
 		sfail("slice expression on %s", s.Typ)
 	}
@@ -369,15 +369,15 @@ func (e *SpecEnv) binary(n *ast.BinaryExpr) Val {
 	case "Str":
 		switch n.Op {
 		case token.ADD:
-			return Val{T: app("str.cat", a.T, b.T), Typ: typ}
+			return Val{T: app("gs.cat", a.T, b.T), Typ: typ}
 		case token.LSS:
-			return Val{T: app("str.lt", a.T, b.T), Typ: tBool}
+			return Val{T: app("gs.lt", a.T, b.T), Typ: tBool}
 		case token.GTR:
-			return Val{T: app("str.lt", b.T, a.T), Typ: tBool}
+			return Val{T: app("gs.lt", b.T, a.T), Typ: tBool}
 		case token.LEQ:
-			return Val{T: not(app("str.lt", b.T, a.T)), Typ: tBool}
+			return Val{T: not(app("gs.lt", b.T, a.T)), Typ: tBool}
 		case token.GEQ:
-			return Val{T: not(app("str.lt", a.T, b.T)), Typ: tBool}
+			return Val{T: not(app("gs.lt", a.T, b.T)), Typ: tBool}
 		}
 	}
 	sfail("unsupported binary %s on %s", n.Op, typ)
@@ -484,14 +484,14 @@ func (e *SpecEnv) index(n *ast.IndexExpr) Val {
 	switch t := a.Typ.Underlying().(type) {
 	case *types.Slice:
 		arr, sort := u.elemArr(t.Elem())
-		l := &Loc{Arr: arr, Sort: sort, Key: "(sl.base " + a.T + ")", Key2: "(+ (sl.off " + a.T + ") " + i.T + ")", Typ: t.Elem()}
+		l := &Loc{Arr: arr, Sort: sort, Key: "(sl.base " + a.T + ")", Key2: "(sl.at " + a.T + " " + i.T + ")", Typ: t.Elem()}
 		return Val{T: u.load(e.heap, l), Typ: t.Elem(), Loc: l}
 	case *types.Map:
-		dom, val := u.mapArrs(t)
-		in := and("(not (= "+a.T+" 0))", sel(sel(u.hget(e.heap, dom), a.T), i.T))
-		return Val{T: ite(in, sel(sel(u.hget(e.heap, val), a.T), i.T), u.D.Zero(t.Elem())), Typ: t.Elem()}
+		// specification-level m[k]: the stored value (meaningful under indom(m, k))
+		_, val := u.mapArrs(t)
+		return Val{T: sel(sel(u.hget(e.heap, val), a.T), i.T), Typ: t.Elem()}
 	case *types.Basic:
-		return Val{T: app("str.at", a.T, i.T), Typ: types.Typ[types.Uint8]}
+		return Val{T: app("gs.at", a.T, i.T), Typ: types.Typ[types.Uint8]}
 	case *types.Array:
 		return Val{T: sel(a.T, i.T), Typ: t.Elem()}
 	}
@@ -532,7 +532,7 @@ func (e *SpecEnv) call(n *ast.CallExpr) Val {
 				case *types.Slice:
 					return Val{T: "(sl.len " + a.T + ")", Typ: tInt}
 				case *types.Basic:
-					return Val{T: "(str.len " + a.T + ")", Typ: tInt}
+					return Val{T: "(gs.len " + a.T + ")", Typ: tInt}
 				case *types.Map:
 					dom, _ := u.mapArrs(t)
 					card := u.D.Fun("card:"+shortType(t.Key()), []string{"(Array " + u.D.SortOf(t.Key()) + " Bool)"}, "Int")
@@ -544,7 +544,11 @@ func (e *SpecEnv) call(n *ast.CallExpr) Val {
 			case "fresh":
 				a := e.expr(n.Args[0])
 				oldTop := u.top(e.oldHeap)
-				return Val{T: "(> " + a.T + " " + oldTop + ")", Typ: tBool}
+				return Val{T: "(> " + refOf(u, a) + " " + oldTop + ")", Typ: tBool}
+			case "notolder":
+				// notolder(a, b): a was allocated no earlier than b
+				a, b := e.expr(n.Args[0]), e.expr(n.Args[1])
+				return Val{T: "(>= " + refOf(u, a) + " " + refOf(u, b) + ")", Typ: tBool}
 			case "allocated":
 				a := e.expr(n.Args[0])
 				return Val{T: "(<= " + a.T + " " + u.top(e.heap) + ")", Typ: tBool}
